@@ -54,5 +54,9 @@ import LexVerif.Model.Ops.ParseFloatAlgo
 import LexVerif.Model.Ops.Slow
 import LexVerif.Props.C01Slow
 import LexVerif.Props.C01SlowMain
+import LexVerif.Props.C01SlowDomain
+import LexVerif.Props.C01Number
+import LexVerif.Props.C01Trunc
+import LexVerif.Props.C01Compact
 import LexVerif.Props.C01Final
 import LexVerif.Props.C12Sep
